@@ -8,6 +8,7 @@ read back, the stream flags and the unread characters with the model, and applie
 (Spec/TextSpec.lean) to the implementation's output.
 """
 import json
+import re
 
 from vlib import common, report, flow
 
@@ -17,7 +18,10 @@ RULE = ("values: 0, +-1, digit-count boundaries 10^k-1/10^k/10^k+1, 2^k-1/2^k/2^
         "sequences of 1-6 values with 12 separators; ring elements: per ring type the moduli min/max as reported by the code and values 0,1,p-1,"
         "p/2+-1 (balanced: both ends), 24 ring types (Modular<int8..uint64,float,double,Integer,ruint<7>>, ModularBalanced<int32,int64,float,double>, "
         "ModularExtended<float,double>, Montgomery<int32,ruint<7>>, Modular<Log16>, GFqDom p, p^2, p^3) + ZRing<Integer>; RecInt K=6..12 incl. 2^(2^K)-1 and 10^k; "
-        "polynomials over 4 domains and 4 indeterminate names; a malformed "
+        "polynomials over 4 domains and 4 indeterminate names (read-back half: prt); write half (pw): 5 domains x 3 moduli x 4 names x coefficient "
+        "patterns stored with 0..3 trailing zero coefficients, all-zero vectors of size 1..3, the empty vector, and (prw) the library's own read of "
+        "un-normalised input (`2 101 1 1` over Z/101, `2 0 0 0`, ...) followed by write - text compared with the model and parsed by the reference parser; "
+        "RecInt string constructors on printed forms, both signs and the extremes (ustr, sstr); a malformed "
         "stream (fixed list + seeded random strings over a 19-character alphabet) compares rejection behaviour of model and code. "
         "distinct = distinct input line; non-trivial = value outside {0,1} or non-empty continuation")
 
@@ -31,6 +35,10 @@ def run(prop, tier, seed, replay=None):
         "element lines identify an element by its printed representative",
         "RecInt: division of a ruint by the limb 10 is exact (C06); display_dec is modelled as repeated exact division",
         "the default stream flags (dec, skipws, precision 6) are assumed: hex/oct/showbase output modes are outside the property",
+        "lines whose outcome depends on an uninitialised local of the library (`Element tmp;`, `TT t;`, `long deg;` left untouched by a native extractor whose "
+        "sentry fails) are not judged: the driver evaluates the model with two values of that local (RingIO.uninit) and answers PRE when they differ",
+        "a known finding excuses a line only when the driver verdict is kind=SPEC (implementation = model of the defect); C19-poly-format concerns the read-back half "
+        "(prt) only - every written polynomial text (pw, prw, and the text field of prt) must be the model's and is parsed by the reference parser",
         "ModularBalanced<float>::write still prints the float itself: same text as the integer because representatives stay below 10^6 (maxCardinality 8191)",
         "Rational reader: blanks after an integer-valued rational are consumed (known finding C19-rational-eats-blanks); rational sequences are "
         "therefore checked with a separator consumption that tolerates already-eaten blanks (harness dropsep_tol = model dropSepTol)",
@@ -38,6 +46,7 @@ def run(prop, tier, seed, replay=None):
     L = flow.lean_stage(V, ["GivaroModel.Props.C19"], "GivaroModel/Props/C19.lean")
     # quick: the harness translation unit itself at -O0 (19 ring types x Poly1Dom x RecInt K<=12 under ASan/UBSan take 100 s to
     # compile at -O1, 17 s at -O0; the library objects stay at the S configuration); thorough: S as is, and R (the repository's flags)
+    common.shadow_inc()    # bring the shadow include tree up to date once, before the two configurations are built in parallel threads
     if tier == "quick":
         bins = flow.build_harnesses("h_text", configs=("S",), extra=("-O0",))
     else:
@@ -46,7 +55,13 @@ def run(prop, tier, seed, replay=None):
     if replay:
         lines = [l.split(" = ")[0] for l in json.load(open(replay)).get("lines", []) if l]
     res = flow.correspond(bins, "text", lines=lines, harness_args=[] if lines is not None else [tier, str(seed)])
-    counts = flow.decide(V, res, known=report.findings_for(prop))
+    # A known finding excuses a line only when the implementation does *exactly* what the model of that defect says
+    # (driver verdict kind=SPEC: model = implementation, specification violated).  A line on which the implementation
+    # also departs from the model (kind=BOTH: e.g. a polynomial whose written text is no longer the model's) is new
+    # behaviour and is reported, whatever its key.
+    def classify_known(entry, line, verdict):
+        return bool(entry.get("match")) and re.search(entry["match"], line) is not None and "kind=SPEC" in verdict
+    counts = flow.decide(V, res, known=report.findings_for(prop), classify_known=classify_known)
 
     def nontrivial(l):
         toks = l.split(" = ")[0].split(" ")[1:]
